@@ -509,6 +509,9 @@ pub fn corpus() -> Vec<Plan> {
         p("copied_data", true, true, vec![add("u32"), addc("toka8"), addc("string"), close(Simple), addc("u16"), add("tokb8"), rm(0), close(Simple), addc("toka16"), rm(2), close(Simple)]),
         // built through a pre-computed type table, every other field by type name
         p("readme_table", true, true, vec![addu("usize"), add("toka8"), close(Simple), add("string"), addu("u64"), rm(0), close(Simple), addu("u32"), add("boxstr"), rm(2), close(Simple)]),
+        // many fields in one variant (more than serde's tuple arity: clone only) and many variants
+        p("many_fields", true, false, vec![add("u8"), add("toka8"), addu("u16"), add("string"), addu("u32"), add("toka3"), addu("u64"), add("tokb8"), add("u8x3"), add("toka16"), addu("u8"), add("vecu32"), add("u16x3"), add("tokah"), addu("u128"), add("boxtok"), add("u8"), add("opttok"), addu("p12"), add("toka8"), close(Simple), rm(3), rm(9), rm(15), add("toka64"), add("u16"), close(Simple)]),
+        p("many_variants", true, true, vec![add("toka8"), addu("u32"), close(Simple), add("string"), close(Simple), rm(0), add("u16"), close(Basic), add("tokb8"), rm(1), close(Simple), rm(2), add("vecu32"), close(Append), add("u8"), rm(3), close(Simple), rm(4), add("toka3"), close(Simple), rm(5), rm(6), add("u64"), close(Simple), add("toka16"), close(Simple)]),
         // zero-size only
         p("zst_only", true, true, vec![add("unit"), add("tokaz"), close(Simple), add("u64x0"), rm(0), close(Simple)]),
     ]
